@@ -10,6 +10,7 @@ VERIF = os.path.dirname(os.path.dirname(os.path.abspath(__file__)))
 HOOK_COMMITS = ["3cc517e"]
 
 H = "vh (engine H: model-based history runner)"
+MP = "pg (engines M and P: macro generators as a library + generated client programs through rustc)"
 
 CLAIMED = {
     # id: (engine, category, technique, level text, level note, design ref)
@@ -55,6 +56,18 @@ CLAIMED = {
     "C17": (H, "exploration", "model-based stateful property testing of the event logs (feature events)",
             "The harness is built with feature events; after every step the per-archetype and world-level created/destroyed iterators are compared as multisets with the model's logs, size_hint is checked before every next(), and clears must empty the logs without touching entities.",
             "multiset comparison (no ordering guarantee is documented)", "DESIGN.md 3/C17"),
+    "C05": (MP, "exploration", "property testing of the macro generators as a library against a reference matcher + differential testing of generated client programs through rustc",
+            "Generated (declaration, query) pairs are pushed through the macro crate's own parse/bind/generate code in-process (tens of thousands per run, shrinkable) and compared with a reference matcher written from the documentation: accept/reject and error family, matched archetype set, bound types, columns read. The same generators emit complete client programs that rustc compiles and that are run; their output must equal the reference semantics. Negative programs must be rejected and their twins accepted.",
+            "engine M reads the shape of the emitted token streams (a refactoring that changes the shape is reported inconclusive); engine P decides behaviourally", "DESIGN.md 3/C05"),
+    "C15": (MP, "exploration", "property testing of id assignment against the discriminant fold + generated programs printing every id through rustc",
+            "Declarations with arbitrary explicit / implicit / colliding / overflowing ids (and cfg-disabled items) are resolved by the macro's own DataWorld::new and compared with a reference fold incl. which error; compiled programs print ARCHETYPE_ID, COMPONENT_ID, ecs_component_id! (in and outside queries), handle archetype_id(), the Select table for all 256 ids; rejected declarations must fail to compile.",
+            "up to 12 archetypes x 10 components per declaration in the generated family", "DESIGN.md 3/C15"),
+    "C16": (MP, "exploration", "metamorphic testing over all 2^k cfg assignments (decorated program vs program with disabled items deleted), in-process and through rustc --cfg",
+            "For every generated program P decorated with k predicates and every one of the 2^k assignments s, P under s must behave exactly like the cfg-free twin P|s: engine M compares the resolved world, matched sets and bound types; engine P compiles P with the --cfg flags of s and the twin without flags, runs both and compares their output with the reference.",
+            "k <= 4 (M) / 3 (P); cfg on OneOf (explicit 'not supported' error) and degenerate all-disabled declarations are excluded by construction and counted", "DESIGN.md 3/C16"),
+    "C18": (MP, "exploration", "token scan of generated expansions + rustc's forbid(unsafe_code) on generated programs + grammar-generated negative/twin compile corpus",
+            "(a) every expansion produced by engine M (hundreds of thousands) is scanned for `unsafe`, and every positive program of engine P carries #![forbid(unsafe_code)]; (b) 447 negative programs generated from the holder x structural-change grammar and the alias / &mut-entity / smuggling / nested-change / Send / Sync families must be rejected by rustc while each sound twin compiles.",
+            "(a) is universally quantified over generator output: sampling + rustc's lint on every sampled program is what this family of technique offers; (b) is a finite grammar, enumerated completely", "DESIGN.md 3/C18"),
 }
 
 
@@ -96,6 +109,8 @@ def main():
         "engines": [
             {"name": H, "path": "/verif/harness", "serves_properties": sorted(k for k, v in CLAIMED.items() if v[0] == H),
              "kind_free_text": "Rust crate: real ecs_world! worlds with drivers wrapping every access path, reference model, op interpreter, proptest front end (vh-run), sharded by the python driver /verif/check"},
+            {"name": MP, "path": "/verif/proggen", "serves_properties": sorted(k for k, v in CLAIMED.items() if v[0] == MP),
+             "kind_free_text": "Rust crate pg: #[path]-includes /repo/macros/src/{data.rs,parse,generate} so the proc-macro logic runs as a library (engine M), reference semantics, proptest generators, program emitter; python compile farm (vlib/farm.py) invoking rustc directly against a cargo-built libgecs (engine P)"},
         ],
         "checks": checks,
         "notes": "Every check: exit 0 held, 1 violation (VIOLATION line), 2 inconclusive. Known findings: /verif/known_findings.json (only 'fixed' entries at present).",
